@@ -1,3 +1,4 @@
+import Copia.Gen.Decisions
 import Copia.Props.C02
 /-!
 # C07 — content survival with a lost, damaged or foreign archive (whole run)
@@ -33,5 +34,21 @@ theorem untrusted_run_keeps_every_version (le : P → P → Bool)
   · rcases hB p c h with r | ⟨hb, _⟩
     · exact r
     · rw [hbase] at hb; cases hb
+
+end Copia.C07
+
+
+namespace Copia.C07
+
+/-- C07 (`Archive::load`, the acceptance test TRANSLATED from archive.rs on this run): a parsed archive is trusted exactly
+when its format version is the current one (1) AND its pair hash is the expected pair's — every other version (0, 2, …)
+and every other pair is refused. What comes before (unreadable file, JSON that does not parse into the five fields) is
+`None` by `?`, checked by the translator's shape test and on the real binary. -/
+theorem source_load_accepts_iff (a : Copia.Gen.ArchHdr) (expected : String) :
+    Copia.Gen.archiveAccept a expected = true ↔ a.formatVersion = 1 ∧ a.pairHash = expected := by
+  simp only [Copia.Gen.archiveAccept, Copia.Gen.archiveFormatVersion, Bool.and_eq_true]
+  constructor
+  · rintro ⟨h1, h2⟩; exact ⟨of_decide_eq_true h1, of_decide_eq_true h2⟩
+  · rintro ⟨h1, h2⟩; exact ⟨decide_eq_true h1, decide_eq_true h2⟩
 
 end Copia.C07
